@@ -69,6 +69,13 @@ type Options struct {
 type env struct {
 	root, cur   any
 	last        int
+	// lastLex: the array of the subscript whose brackets lexically enclose the
+	// expression being evaluated. It differs from last (which follows the
+	// evaluation: the array of the subscript step still in progress) exactly
+	// in the steps that follow a nested subscript, e.g. the filter of
+	// $.a[$.b[0] ? (@ <= last)] - there the statements of C09/C14 read one
+	// way and PostgreSQL behaves the other: not pinned.
+	lastLex int
 	vars        map[string]any
 	lax         bool
 	ignore      bool
@@ -155,7 +162,7 @@ func Eval(a *ast.AST, doc any, opt Options) Result {
 			res.Capped = true
 			break
 		}
-		e := &env{root: doc, cur: doc, last: -1, vars: opt.Vars, lax: a.IsLax(), ignore: a.IsLax(),
+		e := &env{root: doc, cur: doc, last: -1, lastLex: -1, vars: opt.Vars, lax: a.IsLax(), ignore: a.IsLax(),
 			useTZ: opt.UseTZ, zone: opt.Zone, dev: opt.Dev, script: script}
 		var items []any
 		err := e.step(a.Root(), doc, e.lax, func(v any) error { items = append(items, v); return nil })
@@ -264,6 +271,9 @@ func (e *env) step(n ast.Node, item any, unwrap bool, out func(any) error) error
 		case ast.ConstLast:
 			if e.last < 0 {
 				return hard("last outside subscript")
+			}
+			if e.last != e.lastLex {
+				return unspec("last in the steps that follow a nested subscript")
 			}
 			return next(int64(e.last - 1))
 		case ast.ConstAnyKey:
@@ -547,7 +557,10 @@ func (e *env) seqSilent(n ast.Node, item any, unwrapRes bool) ([]any, bool, erro
 func (e *env) index(n ast.Node, item any) (int, error) {
 	saved := e.existsDepth
 	e.existsDepth = 0
+	savedLex := e.lastLex
+	e.lastLex = e.last
 	res, err := e.seq(n, item, false)
+	e.lastLex = savedLex
 	e.existsDepth = saved
 	if err != nil {
 		return 0, err
